@@ -843,6 +843,41 @@ func vWCampaign(t *testing.T, s *vSink, l *vWLine, c vWCase, nw *vNet, B *vWNode
 			l.ChangedMut++
 		}
 	}
+	// The encryption version byte is not authenticated: with it flipped, a genuine ciphertext is opened under the other
+	// version's rules (padding removed or not), and what those rules do depends on the length of the plaintext and on
+	// its last byte.  Genuine ciphertexts (sealed here with the standard library under the receiver's key) of every
+	// plaintext length 1..40 x last byte 0..33, 0x80, 0xff, both versions, sent with the version byte flipped.
+	if key := c.senderKey(); key != nil && c.Path == "packet" && c.Msg == "user" {
+		lab, _, _ := vSplitLabel(frame)
+		lasts := []int{0x80, 0xff}
+		for b := 0; b <= 33; b++ {
+			lasts = append(lasts, b)
+		}
+		for n := 1; n <= 40; n++ {
+			for _, last := range lasts {
+				for vsn := byte(0); vsn <= 1; vsn++ {
+					pt := make([]byte, n)
+					pt[0] = byte(userMsg)
+					for i := 1; i < n; i++ {
+						pt[i] = byte(0x41 + (i+n)%23)
+					}
+					pt[n-1] = byte(last)
+					if n == 1 && byte(last) != byte(userMsg) {
+						continue
+					}
+					in := pt
+					if vsn == 0 { // the padded format
+						pad := 16 - len(pt)%16
+						in = append(append([]byte(nil), pt...), bytes.Repeat([]byte{byte(pad)}, pad)...)
+					}
+					nonce := []byte{9, 8, 7, 6, 5, 4, 3, 2, 1, byte(n), byte(last), vsn}
+					ct := vSealGCM(key, nonce, in, []byte(lab))
+					wire := vWithLabel(lab, append(append([]byte{vsn ^ 1}, nonce...), ct...))
+					fire(wire, true)
+				}
+			}
+		}
+	}
 	for k := 0; k < len(frame); k++ { // every truncation
 		fire(append([]byte(nil), frame[:k]...), false)
 	}
